@@ -38,7 +38,82 @@ def line(req):
     if op == 'accepts':
         _, n, K, ps = req
         return 'accepts %d %s %s' % (n, core.names_line(K), core.params_line(ps))
+    if op in ('bindcall', 'bindcallsig'):
+        _, args, kw, ps = req
+        return '%s %s %s %s' % (op, vals_line(args), kw_line(kw), core.params_line(ps))
+    if op == 'prepare':
+        _, P, W, ps = req
+        return 'prepare %s %s %s' % (core.names_line(P), core.names_line(W), core.params_line(ps))
+    if op == 'deccall':
+        _, P, W, args, kw, ps = req
+        return 'deccall %s %s %s %s %s' % (core.names_line(P), core.names_line(W), vals_line(args), kw_line(kw),
+                                        core.params_line(ps))
+    if op == 'deccallm':      # bound method: the model sees the function with `self` and the instance as first argument
+        _, P, W, args, kw, ps = req
+        return 'deccall %s %s %s %s %s' % (core.names_line(P), core.names_line(W), vals_line((SELF_TOK,) + tuple(args)),
+                                        kw_line(kw), core.params_line((core.P('self', 'pk'),) + tuple(ps)))
+    if op in ('startnames', 'endnames'):
+        _, st, extra, ps = req
+        return '%s %d %s %s' % (op, core.NAMES.id(st), core.names_line(extra), core.params_line(ps))
+    if op == 'autonames':
+        _, ex, ps = req
+        return 'autonames %s %s' % (core.names_line(ex), core.params_line(ps))
+    if op == 'makeup':
+        _, nextra, ps = req
+        return 'makeup %s %s' % ('.'.join(str(900 + i) for i in range(nextra)) or '_', core.params_line(ps))
     raise core.HarnessError('unknown op %r' % (op,))
+
+
+SELF_TOK = 777
+
+
+def vals_line(vs):
+    return '.'.join(str(v) for v in vs) if vs else '_'
+
+
+def kw_line(kw):
+    return '.'.join('%d=%d' % (core.NAMES.id(k), v) for k, v in kw) if kw else '_'
+
+
+def parse_model(req, ml):
+    """model answer line -> canonical answer comparable with real(req)"""
+    op = req[0]
+    toks = ml.split()
+    if not toks or toks[0] == 'bad-op':
+        raise core.HarnessError('driver answered %r to %r' % (ml, line(req)))
+    if op in ('bindcall', 'bindcallsig', 'deccall', 'deccallm'):
+        if toks[0] == 'typeerror':
+            return ('typeerror',)
+        if toks[0] == 'err':
+            return ('err', toks[1])
+        named = _pairs(toks[1])
+        va = None if toks[2] == '-' else tuple(int(x) for x in toks[2].split('.')) if toks[2] != '_' else ()
+        vk = None if toks[3] == '-' else _pairs(toks[3])
+        if op == 'deccallm':
+            named = tuple((k, v) for k, v in named if k != core.NAMES.id('self'))
+        return ('bound', named, va, vk)
+    if op == 'prepare':
+        if toks[0] == 'err':
+            return ('err', toks[1])
+        ps = []
+        if toks[1] != '_':
+            for q in toks[1].split(','):
+                n, k, df, an, ua = q.split(':')
+                ps.append((int(n), k, None if df == '-' else int(df), None if an == '-' else int(an), ua))
+        return ('ok', tuple(ps))
+    if op in ('startnames', 'endnames', 'autonames'):
+        if toks[0] == 'err':
+            return ('err', toks[1])
+        return ('ok', tuple(sorted(int(x) for x in toks[1].split('.'))) if len(toks) > 1 and toks[1] != '_' else ())
+    if op == 'makeup':
+        return ('ok', int(toks[1]), toks[2] if len(toks) > 2 else '')
+    return core.parse_model_answer(ml)
+
+
+def _pairs(s):
+    if s == '_':
+        return ()
+    return tuple(sorted((int(a), int(b)) for a, b in (e.split('=') for e in s.split('.'))))
 
 
 class PartialObj:
@@ -85,6 +160,9 @@ def real(req, plain=False):
     if op == 'accepts':
         _, n, K, ps = req
         return core.real_accepts(ps, n, K)
+    from . import real_mod
+    if op in real_mod.OPS:
+        return real_mod.OPS[op](req)
     raise core.HarnessError('unknown op %r' % (op,))
 
 
@@ -167,15 +245,15 @@ def process_chunk(task):
     plain = bool(opts.get('plain'))
     for r, ml in zip(reqs, model_raw):
         ra = real(r, plain=plain)
-        ma = core.parse_model_answer(ml)
+        ma = parse_model(r, ml)
         res.n += 1
         res.counters[r[0]] += 1
         if isinstance(ra, tuple):
-            res.counters['real:' + (ra[0] if ra[0] == 'ok' else ra[1])] += 1
+            res.counters['real:' + (ra[0] if ra[0] != 'err' else ra[1])] += 1
         else:
             res.counters['real:' + str(ra)] += 1
         pr, pm = proj(ra), proj(ma)
-        nontriv = not (isinstance(ra, tuple) and ra[0] == 'ok' and len(ra[1]) == 0)
+        nontriv = not (isinstance(ra, tuple) and ra[0] == 'ok' and isinstance(ra[1], tuple) and len(ra[1]) == 0)
         if nontriv:
             res.distinct.add(hash(lines[res.n - 1]))
         if pr != pm:
